@@ -18,7 +18,10 @@ CONSTANTS Muts,        \* subset of {"reg","unreg","sub","unsub","rebuild",
           InitRBases,  \* initial bases of the registries
           RBaseChoices,\* set of <<g, bases>> for SetRegBases
           SBaseChoices,\* set of <<s, bases>> for SetSpecBases
-          ObsEvery     \* the full observation is dumped every n-th level
+          ObsEvery,    \* the full observation is dumped every n-th level
+          ViaAll       \* TRUE: the entry point that performs a lookup step is
+                       \* part of the action (all of them are explored);
+                       \* FALSE: the replay draws one per step
 
 VARIABLE act
 allvars == <<vars, act>>
@@ -45,6 +48,13 @@ SubValChoices(k) == IF ValMode = "keyed" THEN {SubKeyVal(k)} ELSE Vals
 \* The depth bound is a guard of every action (not a CONSTRAINT): TLC then
 \* never generates the out-of-bound frontier, whose states would otherwise be
 \* re-generated -- and re-dumped -- once per incoming transition.
+\* lookup, lookup1, adapter_hook, queryAdapter and queryMultiAdapter read and
+\* fill the SAME cache (Registry.QLookup); which of them asks is observable
+\* only in the implementation
+ViasOf(req) == IF ~ViaAll THEN {""}
+               ELSE {"lookup", "lookup_list", "lookup_lazy", "multi"} \cup
+                    (IF Len(req) = 1 THEN {"lookup1", "hook", "queryAdapter"}
+                     ELSE {})
 BadName == "<not a string>"
 ValueErr == -3
 DepthOK == TLCGet("level") < MaxDepth
@@ -100,9 +110,10 @@ Next ==
           /\ OnQ("lookup")
           /\ k[2] # PNone
           /\ QLookup(g, k[1], k[2], nm)
-          /\ act' = [op |-> "lookup", g |-> g, req |-> k[1],
-                     prov |-> k[2], name |-> nm,
-                     adm |-> Admissible(g, k[1], k[2], nm)]
+          /\ \E via \in ViasOf(k[1]) :
+                act' = [op |-> "lookup", g |-> g, req |-> k[1],
+                        prov |-> k[2], name |-> nm, via |-> via,
+                        adm |-> Admissible(g, k[1], k[2], nm)]
     \* a non-string name is rejected on every path, in every cache state, and
     \* changes nothing (C08)
     \/ \E g \in Regs, k \in LookKeys :
